@@ -150,9 +150,11 @@ package otto
 //@   ensures called(pf) && pf_1 == nil ==> sameFloat(result, pf_0)
 //@   ensures called(pf) && pf_1 != nil && called(rng) && rng ==> sameFloat(result, pf_0)
 
+//@ spec numberTagOK(f float64, k numberKind, i int64) bool = (k == numberInteger ==> float64(i) == f) && (isNaN(f) ==> k == numberNaN) && (isInf(f) ==> k == numberInfinity) &&
+//@+  (!isNaN(f) && !isInf(f) && trunc(f) != f ==> k == numberFloat) && (trunc(f) == f && f > -9223372036854775808.0 && f < 9223372036854775808.0 ==> k == numberInteger)
 //@ func (Value).number
 //@   props C05 C08 C09 C15 C11
-//@   unfold numOf
+//@   unfold numOf numberTagOK
 //@   requires jsValue(v)
 //@   pure_if v.kind != valueObject
 //@   throws v.kind == valueObject
@@ -160,6 +162,11 @@ package otto
 //@   ensures v.kind == valueUndefined ==> result.int64 == 0 && result.kind == numberNaN
 //@   ensures v.kind == valueNull ==> result.int64 == 0 && result.kind == numberInteger
 //@   ensures isGoNumber(v) && (is(v.value, float64) || is(v.value, uint) || is(v.value, uint64)) ==> result.int64 == satInt64(numOf(v))
+// the classification consumers rely on (JSON.stringify, ToString, array lengths print or use the
+// int64 field of an integer-tagged number): a double tagged numberInteger carries exactly its value
+// in the int64 field; NaN and the infinities are tagged as such; a double with a fractional part
+// is numberFloat
+//@   ensures isGoNumber(v) && is(v.value, float64) ==> numberTagOK(v.value.(float64), result.kind, result.int64)
 //@   ensures isGoNumber(v) && is(v.value, int) ==> result.int64 == int64(v.value.(int))
 //@   ensures isGoNumber(v) && is(v.value, int64) ==> result.int64 == v.value.(int64)
 //@   ensures isGoNumber(v) && is(v.value, int32) ==> result.int64 == int64(v.value.(int32))
@@ -1354,8 +1361,16 @@ package otto
 // integer it denotes, or the conversion fails: whenever toReflectValue boxes an integer
 // for the caller (reflect.ValueOf), that integer is numerically equal to the number -
 // never a truncated fraction, a wrapped-around out-of-range value or a stand-in for NaN.
+// completeness of the numeric conversions: a RangeError is raised only for a number that the
+// target kind cannot hold exactly (a fraction, or a value outside the kind's range)
+//@ spec fitsKind(x float64, k int) bool = trunc(x) == x && (
+//@+  (k == 3 ==> x >= -128.0 && x <= 127.0) && (k == 4 ==> x >= -32768.0 && x <= 32767.0) && (k == 5 ==> x >= -2147483648.0 && x <= 2147483647.0) &&
+//@+  ((k == 2 || k == 6) ==> x >= -9223372036854775808.0 && x < 9223372036854775808.0) &&
+//@+  (k == 8 ==> x >= 0.0 && x <= 255.0) && (k == 9 ==> x >= 0.0 && x <= 65535.0) && (k == 10 ==> x >= 0.0 && x <= 4294967295.0) &&
+//@+  ((k == 7 || k == 11) ==> x >= 0.0 && x < 18446744073709551616.0))
 //@ func (Value).toReflectValue
 //@   props C16 C15
+//@   at_call fmt.Errorf : !(isGoNumber(v) && is(v.value, float64) && typekind(typ) >= 2 && typekind(typ) <= 11 && fitsKind(numOf(v), typekind(typ)))
 //@   nosafety
 //@   unfold numOf intOf
 //@   requires jsValue(v) && typ != nil
